@@ -775,6 +775,8 @@ func classify(msgs []string) int {
 	code := 0
 	for _, m := range msgs {
 		switch {
+		case strings.Contains(m, "by reusable workflow") && strings.Contains(m, "cannot be assigned"):
+			// the TYPE of a `with:` value against the callee's declaration: not a scope verdict
 		case strings.Contains(m, "is not defined in object type"):
 			if code == 0 {
 				code = 1
